@@ -150,8 +150,13 @@ func c19prop(ev *evid.Rec) func(rt *rapid.T) {
 			room -= len(texts[i]) + 130
 		}
 		nlogin := rapid.IntRange(2, 8).Draw(rt, "nlogins")
+		staleTmp := rapid.IntRange(0, 3).Draw(rt, "staleTmp") == 0
 		overlap := false
 		inWorld(rt, hlsim.Options{Agreement: string(agreement), Board: string(initial), Accounts: []hlsim.AccountSpec{acct("admin", "Admin", "adminpw", func() hlref.Access { a := hlref.AllAccess().Defined(); a.Clear(hlref.PrivNoAgreement); return a }())}}, func(rt *rapid.T, w *hlsim.World) {
+			if staleTmp {
+				// what a server that died between writing and renaming leaves behind: it must not leak into later posts
+				must(os.WriteFile(filepath.Join(w.Cfg, "MessageBoard.txt.tmp"), bytes.Repeat([]byte("LEFTOVER OF A CRASHED UPDATE\r"), 400), 0o644))
+			}
 			var cs []*hlsim.Conn
 			for i := 0; i < nclients; i++ {
 				cs = append(cs, loginAs(rt, w, fmt.Sprintf("10.19.0.%d:1", i+1), "admin", "adminpw", fmt.Sprintf("c%d", i)))
